@@ -79,10 +79,16 @@ class VStyle(gen.Style):
         return ":=" if a is not None else "="
 
     def quote(self, s):
-        if "'" in s or '"' in s:
+        self.escape_quotes = False
+        if "'" in s and '"' in s:
             return '"'
+        canon = "'" if '"' in s else '"'
         a = self._hit("quote")
-        return "'" if a is not None else '"'
+        if a is None:
+            return canon
+        # the other quote character; a string that contains it is written with the documented backslash escape
+        self.escape_quotes = True
+        return '"' if canon == "'" else "'"
 
     def idx(self, n, first=False):
         a = self._hit("idx")
@@ -151,6 +157,7 @@ def statuses(w, text, docs):
 def shard(ctx):
     rng = ctx.rng("c14")
     o = gen.Opts(types=True, calls=True, msgs=True, max_rules=3, max_lines=3, keys_filters=True, some_lets=True)
+    o.scalars = list(o.scalars) + ["it's", 'say "hi"', "o'", '"']       # strings that need an escape under one of the two quote styles
     nprog = 8 if ctx.quick else 260
     cover = ctx.res.extra.setdefault("class_context_programs", core.Counter())
     for t in range(nprog):
